@@ -646,6 +646,14 @@ func (fr *Frame) contractCall(fc *FuncContract, callee *ssa.Function, args []*Va
 	pre := fr.st.clone()
 	env := &SpecEnv{fr: fr, vars: vars, cur: pre, old: pre, pkg: cpkg, nq: &n}
 	p := fr.pos(pos)
+	// vacuity guard around the call: if the call site is reachable, it must still be reachable once
+	// the callee's postconditions have been assumed (a postcondition that contradicts what the caller
+	// knows - e.g. because the computed mod-set misses a location the callee writes - would make
+	// everything after the call vacuously true)
+	var coverBefore *Obl
+	if vc.lemma == nil && os.Getenv("GOVC_NOCALLCOVER") == "" {
+		coverBefore = vc.coverRel(fmt.Sprintf("%s/cover.call.before@%s#%s", relFuncName(vc.fn), name, hash4(vc.eng.srcLine(p))), p, fr.reach, nil)
+	}
 	for i, c := range fc.Requires {
 		t, err := fr.evalSpecBool(c.Expr, env)
 		if err != nil {
@@ -729,6 +737,11 @@ func (fr *Frame) contractCall(fc *FuncContract, callee *ssa.Function, args []*Va
 		}
 	}
 	for _, c := range fc.Ensures {
+		if fc.Recovers {
+			// the contract of a recovering deferred function describes the panicking case (recover()
+			// yields a non-nil value); when it runs on a normal return nothing of it may be assumed
+			break
+		}
 		t, err := fr.evalSpecAssume(c.Expr, penv)
 		if err != nil {
 			vc.specError(fr, c, err)
@@ -754,6 +767,9 @@ func (fr *Frame) contractCall(fc *FuncContract, callee *ssa.Function, args []*Va
 		vc.usedContracts = map[string]*FuncContract{}
 	}
 	vc.usedContracts[fc.PkgPath+" "+fc.Key] = fc
+	if coverBefore != nil {
+		vc.coverRel(fmt.Sprintf("%s/cover.call.after@%s#%s", relFuncName(vc.fn), name, hash4(vc.eng.srcLine(p))), p, fr.reach, coverBefore)
+	}
 	return res
 }
 
